@@ -108,6 +108,9 @@ def fam_reports(tier, seed):
     b.con("Or", xs=[o_con(b.con("TaskPrecedence", before=a, after=c, offset=0, kind="lax")),
                     o_con(b.con("TaskPrecedence", before=c, after=a, offset=0, kind="lax"))])
     ps.append(dict(b.done(), keep=True))
+    # ... and the same with an objective that pushes the tasks to the right
+    b.obj("ObjectiveTasksStartLatest", ind=b.ind("MinimumStartTime", name="MinimumStartTime", tasks=[a, c]), kind="maximize")
+    ps.append(dict(b.done(), keep=True))
     if not full:
         ps = sample(rng, ps, 21)
     return number(ps)
